@@ -814,6 +814,10 @@ fn enabled_c03(w: &RouterWorld, cfg: &Cfg, v: &mut Vec<(Act, u8)>) {
                 if w.outbox.is_empty() {
                     v.push((Act::Connect { c, clean: c % 2 == 0, will: 0 }, 0));
                 }
+                // batches in which a closing packet follows (or precedes) other packets
+                for kind in [2u8, 3, 6, 7] {
+                    v.push((Act::Batch { c, kind }, 0));
+                }
             }
             for f in 0..cfg.filters.len() as u8 {
                 if !active_sub(w, c, &cfg.filters[f as usize]) {
